@@ -14,7 +14,8 @@ LEVEL_TEXT = (
     "EDGE SET: lattice_connection_array(n) / EdgeSubsets.AllLatticeEdges._get_edges list every unit edge of the n x n lattice exactly once, lesser endpoint first (n(n-1) horizontal edges in row-major order, then n(n-1) vertical ones: "
     "np.meshgrid, 2-d slices, ravel, np.column_stack, reshape, np.concatenate through their library contracts and the row-major index algebra); EdgeSubsets.ConnectionEdges._get_edges lists precisely the selected edge set - every row a lattice edge inside the grid whose connection bit is the selected kind (connections, or walls with walls=True), "
     "lesser endpoint first, every such edge in some row, none in two (through the adjacency-list contract connection_list_to_adj_list, proved under C13; grids up to 127x127); EdgePermuters.BothCoords._permute lists the edges it is given followed by the same edges with their "
-    "coordinates exchanged (`in both orientations`). "
+    "coordinates exchanged (`in both orientations`); EdgePermuters.RandomCoords._permute keeps every unit lattice edge in place in one of its two orientations, whatever Generator.permuted draws "
+    "(it permutes the two row entries and the two column entries of a pair independently - harmless exactly because the two cells of a lattice edge agree in one coordinate: a precondition of the contract). "
     "DECODABLE REGIONS: lemma regions_roundtrip - token_utils.get_adj_list_tokens / get_origin_tokens / get_target_tokens / get_path_tokens(trim_end=True) (real bodies) recover from a full AOTP sequence exactly "
     "the four region lists it was built from (non-empty adjacency, origin and target regions: tokens_between refuses an empty slice). "
     "The composition of the region tokenizers themselves (dynamic dispatch, coordinate tokens, the Distance vocabulary lookup) is outside the verified subset and is decided by the bounded stand-in, "
@@ -31,7 +32,7 @@ PROVE = [(TU, "get_cardinal_direction"), (TU, "get_relative_direction"), (MT, "S
          (TU, "tokens_between"), (MT, "PromptSequencers.AOTP._sequence_tokens"), (MT, "PromptSequencers.AOP._sequence_tokens"),
          ("/verif/contracts/lemmas_src.py", "prompt_layout"), ("/verif/contracts/lemmas_src.py", "prompt_layout_aop"),
          ("/verif/contracts/lemmas_src.py", "regions_roundtrip"),
-         ("maze_dataset/token_utils.py", "connection_list_to_adj_list"), (MT, "EdgeSubsets.ConnectionEdges._get_edges"), (MT, "EdgePermuters.BothCoords._permute"),
+         ("maze_dataset/token_utils.py", "connection_list_to_adj_list"), (MT, "EdgeSubsets.ConnectionEdges._get_edges"), (MT, "EdgePermuters.BothCoords._permute"), (MT, "EdgePermuters.RandomCoords._permute"),
          ("maze_dataset/utils.py", "lattice_connection_array"), (MT, "EdgeSubsets.AllLatticeEdges._get_edges")]
 ASSUMPTIONS = ["region token lists contain none of the eight region delimiters (coordinate, connector, direction and distance tokens are other vocabulary entries: checked by the bounded decoder, not proved)", "consecutive solution cells are lattice-adjacent (what SolvedMaze solutions are); start_index + 1 < len(solution)"]
 EXPLANATION = "see DESIGN.md C06"
